@@ -1,5 +1,5 @@
 (* Corr/C04.v — correspondence glue: evaluates the TunnelOpen model on a table cell observed on the real code. *)
-From TX Require Import Base.Val Model.TunnelOpen.
+From TX Require Import Base.Threads Base.Val Model.TunnelOpen Model.TunnelRace.
 
 (* case value: [ [validate_first; secret_isvalid] ; [id; mid; secret; resume; mstate; tstate] ; [ack; role; entitled] ]
    ack: 0 none 1 success 2 failure;  role: 0 not attached, 1 source of the existing bridge, 2 target of the existing
@@ -9,7 +9,8 @@ Definition dec_variant (v : tval) : variant :=
 Definition dec_cell (v : tval) : cell :=
   {| ce_id := match vn (vnth 0 v) with 0 => IdNone | 1 => IdHalf | 2 => IdListen | 3 => IdTarget | _ => IdStranger end%N;
      ce_mid := match vn (vnth 1 v) with 0 => MidNone | 1 => MidTunnel | _ => MidOther end%N;
-     ce_secret := match vn (vnth 2 v) with 0 => SNone | 1 => SRight | _ => SWrong end%N;
+     ce_secret := match vn (vnth 2 v) with 0 => SNone | 1 => SRight | 2 => SWrong | 3 => SPrefix1 | 4 => SPrefixAll | 5 => SSuffix
+                                          | 6 => SPlus | 7 => SCase | 8 => SOneChar | _ => SOther end%N;
      ce_resume := vbool (vnth 3 v);
      ce_mstate := match vn (vnth 4 v) with 0 => MActive | 1 => MRevoked | 2 => MExpired | 3 => MInactive | _ => MMissing end%N;
      ce_tstate := match vn (vnth 5 v) with 0 => TNone | 1 => TWaiting | 2 => TServed | _ => TRemote end%N |}.
@@ -48,7 +49,8 @@ Definition h_mapping (m : N) (st : t_mstate) : option mapping :=
 Definition h_db0 : db := fun m => if N.eqb m 1 then h_mapping 1 MActive else if N.eqb m 2 then h_mapping 2 MActive else None.
 Definition h_req (mid sec tun : N) : request :=
   {| r_mid := mid; r_tid := 7 + tun;
-     r_secret := match sec with 0 => 0 | 1 => (if N.eqb mid 2 then 102 else 101) | _ => 999 end; r_resume := false |}.
+     r_secret := match sec with 0 => 0 | 1 => (if N.eqb mid 2 then 102 else 101) | 9 => (if N.eqb mid 2 then 101 else 102)
+                                | k => 990 + k end; r_resume := false |}.
 Definition h_cfg (routing : bool) : config := {| cfg_self := 1; cfg_crossnode := routing; cfg_routing := routing |}.
 
 Definition resolve_all (v : variant) (cfg : config) (s : sys) : sys :=
@@ -99,12 +101,33 @@ Definition is_hist (v : tval) : bool := N.eqb (vn (vnth 0 (vnth 1 v))) 99.
 
 Close Scope N_scope.
 
+(* ---- two-request interleavings (harness/cmd/c04/race.go) ------------------------------------------------------
+   case value: [ [validate_first; secret_isvalid] ; [98; late_agree; source_reattach] ; [whoA; midA; secA] ; [whoB; midB; secB] ;
+                 [sched: 0 = B entirely first, 1 = B looks up, A runs, B attaches, 2 = A entirely first] ; [mid_end; src; tgt] ]
+   A is connection 1, B is connection 2, the tunnel id is 9 *)
+Open Scope N_scope.
+Definition race_thread (cr : N) (v : tval) : rlocal :=
+  let who := vn (vnth 0 v) in
+  request_thread cr {| c_registered := negb (N.eqb who 0); c_client := h_client who |} (h_req (vn (vnth 1 v)) (vn (vnth 2 v)) 2).
+Definition race_model (v : tval) : list N :=
+  let rv := {| late_agree := vbool (vnth 1 (vnth 1 v)); source_reattach := vbool (vnth 2 (vnth 1 v)) |} in
+  let k := vn (vnth 0 (vnth 4 v)) in
+  let sched := (if N.eqb k 0 then [1; 1; 0; 0] else if N.eqb k 1 then [1; 0; 0; 1] else [0; 0; 1; 1])%nat in
+  let s := rrun rv h_db0 (rinit [race_thread 1 (vnth 2 v); race_thread 2 (vnth 3 v)]) sched in
+  match sh_tun (fst s) 9 with
+  | Some b => [b_mid b; optn (b_src b); optn (b_tgt b)]
+  | None => [0; 0; 0]
+  end.
+Definition is_race (v : tval) : bool := N.eqb (vn (vnth 0 (vnth 1 v))) 98.
+Definition check_race (v : tval) : bool := nlist_eqb (race_model v) (map vn (vl (vnth 5 v))).
+Close Scope N_scope.
+
 Definition check (v : tval) : bool :=
-  if is_hist v then check_hist v else
+  if is_hist v then check_hist v else if is_race v then check_race v else
   let '((ack, role), ent) := model_obs v in
   let o := vnth 2 v in
   N.eqb ack (vn (vnth 0 o)) && N.eqb role (vn (vnth 1 o)) && Bool.eqb ent (vbool (vnth 2 o)).
 
 Definition predict (v : tval) : tval :=
-  if is_hist v then predict_hist v else
+  if is_hist v then predict_hist v else if is_race v then VL (map VN (race_model v)) else
   let '((ack, role), ent) := model_obs v in VL [VN ack; VN role; vN_of_bool ent].
